@@ -739,7 +739,7 @@ def rule_dedup(repo):
                           f"was stored: two different objects that map to the same key (e.g. two classes with the same "
                           f"__name__ and parameters but different ports / behaviour) silently share the first definition",
                           ifn.lineno)
-    r.require_floor(8)
+    r.require_floor(11)
     return r
 
 
@@ -1062,6 +1062,14 @@ def rule_name(repo):
         for g in gs:
             needed |= _names_of(g.test)
         env0 = _fold_locals(f, x, needed - {full})
+        # a local holding the class name (`<rtype>.get_name()`): a Python class name is a legal identifier, so the
+        # adversarial names keep it clean and put the character into the parameter part
+        other_strings = []
+        for nm in sorted(needed - {full} - set(env0)):
+            vals = [v for v in la.get(nm, []) if v is not None]
+            if vals and all(isinstance(v, ast.Call) and isinstance(v.func, ast.Attribute) and v.func.attr == 'get_name' for v in vals):
+                env0[nm] = 'Comp'
+                other_strings.append(nm)
         leak, evals = [], 0
         for ch in PRINTABLE:
             if ch in LEGAL:
@@ -1078,7 +1086,10 @@ def rule_name(repo):
         r.evaluations += evals
         if leak:
             cons = "pass-through guard admits non-identifier characters (hex) " + _hex_ranges(leak)
+            tested_other = [nm for nm in other_strings if any(nm in _names_of(g.test) for g in gs)]
             r.bad(vm, 'get_component_unique_name', cons,
+                  (f"the character test looks at `{tested_other[0]}` (the class name) instead of the returned `{full}`: "
+                   if tested_other else "") +
                   f"a full name containing any of {''.join(leak)!r} is returned unchanged as the module name "
                   f"(guard: {' and '.join(repr(g) for g in gs)[:160]}); str() of tuple / negative / string / float / "
                   f"keyword parameter values produces such characters, so an illegal SystemVerilog identifier is emitted",
@@ -1125,7 +1136,7 @@ def rule_name(repo):
     _param_kinds(r, repo)
     _lambda_block_names(r, repo)
     _file_names(r, repo)
-    r.require_floor(30)
+    r.require_floor(34)
     return r
 
 
@@ -1796,8 +1807,108 @@ def rule_once(repo):
             r.bad(m, q, desc, "the instantiated module name must be: placeholder top module / explicit name, else "
                   "rtlir_tr_component_unique_name(...) -- the function the definition side uses", host.lineno)
     _wrapper_guard(r, repo, scope)
-    r.require_floor(11)
+    _prefix_recursion(r, repo, scope)
+    _paired_port_tests(r, repo)
+    r.require_floor(29)
     return r
+
+
+def _prefix_recursion(r, repo, scope):
+    """Generators that build hierarchical identifiers `<a>__<b>` and call themselves for a nested member: every name
+    component of the current level must survive into the name components of the recursive call (passed on, or folded
+    into another component) -- otherwise two members of different nested objects get the same identifier in one scope"""
+    files = [f for f in scope if f.startswith(VTRANS + 'structural/') or f.startswith(YTRANS + 'structural/')]
+    n = 0
+    for rel in files:
+        m = repo.mod(rel)
+        for f in [x for x in ast.walk(m.tree) if isinstance(x, ast.FunctionDef)]:
+            params = [a.arg for a in f.args.args]
+            me = params[0] if params and isinstance(parent(f), ast.ClassDef) else None
+            recs = []
+            for c in ast.walk(f):
+                if not isinstance(c, ast.Call) or enclosing(c, (ast.FunctionDef,)) is not f:
+                    continue
+                if me and isinstance(c.func, ast.Attribute) and c.func.attr == f.name and norm(c.func.value) == me:
+                    recs.append((c, params[1:]))
+                elif isinstance(c.func, ast.Name) and c.func.id == f.name and not isinstance(parent(f), ast.ClassDef):
+                    recs.append((c, params))
+            if not recs:
+                continue
+            # name components: parameters glued with a `__` separator somewhere in the function
+            comps = set()
+            for js in [x for x in ast.walk(f) if isinstance(x, ast.JoinedStr)]:
+                vals = js.values
+                for i, v in enumerate(vals):
+                    if isinstance(v, ast.FormattedValue) and isinstance(v.value, ast.Name) and v.value.id in params:
+                        near = [vals[j] for j in (i - 1, i + 1) if 0 <= j < len(vals)]
+                        if any(isinstance(x, ast.Constant) and '__' in str(x.value) for x in near):
+                            comps.add(v.value.id)
+            for b in [x for x in ast.walk(f) if isinstance(x, ast.BinOp) and isinstance(x.op, ast.Add)]:
+                if any(isinstance(x, ast.Constant) and isinstance(x.value, str) and '__' in x.value for x in (b.left, b.right)):
+                    for x in ast.walk(b):
+                        if isinstance(x, ast.Name) and x.id in params:
+                            comps.add(x.id)
+            if len(comps) < 1:
+                continue
+            # parameters that are identifiers by name are name components as well (so that a recursion which glues the
+            # separator to the WRONG variable is still judged against the right one)
+            comps |= {p_ for p_ in params if re.fullmatch(r'(_?[a-z]*_?id_?|c?[pw]id)', p_)}
+            for c, ps in recs:
+                if any(isinstance(a, ast.Starred) for a in c.args):
+                    continue
+                bound = dict(zip(ps, c.args))
+                for k in c.keywords:
+                    if k.arg:
+                        bound[k.arg] = k.value
+                carried = set()
+                for p in comps:
+                    if p in bound:
+                        carried |= _names_of_raw(_inline(bound[p], f, stop=set(params)))
+                n += 1
+                lost = sorted(p for p in comps if p in bound and p not in carried)
+                cons = f"{f.name}: name components {sorted(comps)} survive the recursion"
+                if lost:
+                    r.bad(m, qualname(f), cons,
+                          f"the recursive call `{norm(c.func)}(...)` replaces the name component(s) {lost} without folding the old "
+                          f"value into another component (e.g. the interface prefix must become f'{{ifc_id}}__{{port_id}}' when "
+                          f"descending into the nested interface `port_id`): members of two different nested objects get the same "
+                          f"identifier, which is then declared twice in one scope", c.lineno)
+                else:
+                    r.ok(m, qualname(f), cons)
+    if n < 4:
+        raise AnalysisError(f"R-C13-once: only {n} recursive identifier generators found in the structural translators")
+
+
+def _paired_port_tests(r, repo):
+    """`if '<name>' not in <ports>: <add a port called name>`: the name tested is the name added (clk / reset siblings)"""
+    m = repo.mod(VPLACEHOLDER)
+    f = m.get_func('VerilogPlaceholderPass._gen_verilog_wrapper')
+    n = 0
+    for st in [x for x in _own(f) if isinstance(x, ast.If)]:
+        t, neg = st.test, False
+        while isinstance(t, ast.UnaryOp) and isinstance(t.op, ast.Not):
+            t, neg = t.operand, not neg
+        if not (isinstance(t, ast.Compare) and len(t.ops) == 1 and isinstance(t.ops[0], (ast.In, ast.NotIn)) and
+                isinstance(t.left, ast.Constant) and isinstance(t.left.value, str)):
+            continue
+        absent_branch = st.body if (isinstance(t.ops[0], ast.NotIn) != neg) else st.orelse
+        adds = [a for b in absent_branch for c in ast.walk(b) if isinstance(c, ast.Call) and isinstance(c.func, ast.Attribute)
+                and c.func.attr in ('insert', 'append') for a in c.args if isinstance(a, ast.Constant) and isinstance(a.value, str)]
+        for a in adds:
+            mm = re.search(r'([A-Za-z_][A-Za-z0-9_$]*)\s*,?\s*$', a.value)
+            if not mm:
+                continue
+            n += 1
+            cons = f"port `{mm.group(1)}` is added iff it is absent"
+            if mm.group(1) == t.left.value:
+                r.ok(m, qualname(f), cons)
+            else:
+                r.bad(m, qualname(f), cons,
+                      f"the port `{mm.group(1)}` is added when `{t.left.value}` is missing: a wrapper whose component already has "
+                      f"`{mm.group(1)}` but no `{t.left.value}` declares `{mm.group(1)}` twice in one port list, one that has "
+                      f"`{t.left.value}` but no `{mm.group(1)}` lacks it", st.lineno)
+    if n < 2:
+        raise AnalysisError("_gen_verilog_wrapper: the clk / reset port completion was not found")
 
 
 def _wrapper_guard(r, repo, scope):
@@ -1920,7 +2031,7 @@ def rule_instname(repo):
                       f"the array element index: for `s.x = [ C(p=i) for i in range(n) ]` (same interface, different "
                       f"parameters) every element is instantiated as the module of element 0 although a separate module "
                       f"is defined for each", c.lineno)
-    r.require_floor(2)
+    r.require_floor(4)
     return r
 
 
@@ -2164,6 +2275,55 @@ def rule_defname(repo):
     return r
 
 
+def _config_owner(r, repo):
+    """the translation config (explicit module name, ...) stored for a component is built from THAT component: the
+    definition site reads tr_cfgs[m], the instantiation site reads the child's own metadata"""
+    m = repo.mod(VPASS)
+    fs = [n for n in ast.walk(m.tree) if isinstance(n, ast.FunctionDef) and n.name == 'gen_tr_cfgs']
+    if len(fs) != 1:
+        raise AnalysisError("anchor vanished: VerilogTranslationPass.gen_tr_cfgs")
+    f = fs[0]
+    rets = [n for n in _own(f) if isinstance(n, ast.Return) and isinstance(n.value, ast.Name)]
+    if len(rets) != 1:
+        raise AnalysisError("gen_tr_cfgs: expected `return <table>`")
+    tbl = rets[0].value.id
+    stores = [n for n in ast.walk(f) if isinstance(n, ast.Assign) and any(
+        isinstance(t, ast.Subscript) and norm(t.value) == tbl for t in n.targets)]
+    if not stores:
+        raise AnalysisError("gen_tr_cfgs: no store into the config table")
+    for st in stores:
+        host = enclosing(st, (ast.FunctionDef,))
+        key = [t.slice for t in st.targets if isinstance(t, ast.Subscript)][0]
+        cons = "translation config table: entry of a component is built from that component"
+        v = _inline(st.value, host)
+        args = [norm(a) for a in v.args] if isinstance(v, ast.Call) else None
+        params = [a.arg for a in host.args.args]
+        if args is None or len(args) != 1:
+            r.bad(m, qualname(host), cons, f"`{norm(st)}`: the config is not built by a call on one component", st.lineno)
+            continue
+        good = args[0] == norm(key) and isinstance(key, ast.Name) and key.id in params
+        # the traversal must hand every child to itself
+        recs = [c for c in ast.walk(host) if isinstance(c, ast.Call) and isinstance(c.func, ast.Name) and c.func.id == host.name]
+        rec_ok = True
+        for c in recs:
+            lp = enclosing(c, (ast.For,))
+            rec_ok = rec_ok and lp is not None and len(c.args) == 1 and norm(c.args[0]) == norm(lp.target) and \
+                isinstance(lp.iter, ast.Call) and isinstance(lp.iter.func, ast.Attribute) and \
+                lp.iter.func.attr == 'get_child_components' and norm(lp.iter.func.value) == norm(key)
+        if good and rec_ok and (host is f or recs):
+            r.ok(m, qualname(host), cons)
+        elif not good:
+            r.bad(m, qualname(host), cons,
+                  f"`{norm(st)}` stores under `{norm(key)}` a config built from `{args[0]}`"
+                  f"{'' if isinstance(key, ast.Name) and key.id in params else ' (the key is not the traversal parameter)'}: every "
+                  f"descendant gets the config of another component (e.g. the translation top with its explicit_module_name), so "
+                  f"at the definition site all of them are named like the top while the instantiation sites read each child's own "
+                  f"metadata -> one module name defined several times, instantiated names undefined", st.lineno)
+        else:
+            r.bad(m, qualname(host), cons, "the traversal does not descend into the children of the component whose config it "
+                  "stores: components without a config entry", st.lineno)
+
+
 def rule_instchain(repo):
     """Instantiation side of the definition/instantiation agreement.  A (non-top) placeholder child is DEFINED by its
     pickled wrapper, i.e. under cfg.pickled_top_module, whatever explicit name it carries; any other child is defined under
@@ -2234,6 +2394,7 @@ def rule_instchain(repo):
                   f"defined nowhere", host.lineno)
         else:
             r.ok(m, qualname(host), cons)
+    _config_owner(r, repo)
     if len(tables) == 2:
         a, b = tables[VSL4], tables[YSL4]
         if a == b:
@@ -2243,7 +2404,7 @@ def rule_instchain(repo):
             r.bad(repo.mod(YSL4), 'rtlir_tr_subcomp_decl', 'SystemVerilog vs Yosys instantiation name decision',
                   f"the two back-ends name the instantiated module differently for (placeholder, explicit) = {diff}: "
                   f"SystemVerilog {[a[k] for k in diff]} vs Yosys {[b[k] for k in diff]}")
-    r.require_floor(3)
+    r.require_floor(4)
     return r
 
 
@@ -2411,7 +2572,7 @@ def rule_state(repo):
         if init_only:
             r.observations.append(f"{backend}: attributes bound only in __init__ (mutated in place during translation, "
                                   f"balanced push/pop assumed): {init_only}")
-    r.require_floor(5)
+    r.require_floor(7)
     return r
 
 
@@ -2514,7 +2675,7 @@ def rule_eqhash(repo):
                                       f"(not a de-duplication key in the translators today)")
     if 'Struct' not in key_classes or 'Vector' not in key_classes:
         raise AnalysisError("R-C13-eqhash: the RTLIR data type classes were not found")
-    r.require_floor(10)
+    r.require_floor(18)
     return r
 
 
@@ -3104,6 +3265,28 @@ MUTANTS = [
     _m('verilog-instance-name-checked-only-for-arrays', VSL4,
        "    if not c_array_type['n_dim']:\n      s.check_decl( c_id,", "    if c_array_type['n_dim']:\n      s.check_decl( c_id,",
        'R-C13-reserved'),
+    # --- round 7
+    _m('configs-built-from-the-translation-top', VPASS,
+       "    def traverse( m ):\n      nonlocal tr_cfgs\n      tr_cfgs[m] = s.get_translation_config()( m )\n"
+       "      for _m in m.get_child_components(repr):\n        traverse( _m )",
+       "    def traverse( _m ):\n      nonlocal tr_cfgs\n      tr_cfgs[_m] = s.get_translation_config()( m )\n"
+       "      for child in _m.get_child_components(repr):\n        traverse( child )", 'R-C13-defname'),
+    _m('configs-only-for-the-top', VPASS, "      for _m in m.get_child_components(repr):\n        traverse( _m )",
+       "      for _m in m.get_child_components(repr):\n        traverse( m )", 'R-C13'),
+    _m('nested-interface-prefix-not-extended', VSL4, "                  f'{ifc_id}__{port_id}', port_rtype, combined_ifc_array_type,",
+       "                  ifc_id, port_rtype, combined_ifc_array_type,", 'R-C13-once'),
+    _m('yosys-port-array-index-not-appended', YTRANS + 'structural/YosysStructuralTranslatorL1.py',
+       'ret += s.port_gen(d, f"{id_}__{idx}", n_dim[1:], dtype)', 'ret += s.port_gen(d, f"{d}__{idx}", n_dim[1:], dtype)',
+       'R-C13-once'),
+    _m('wrapper-reset-port-tested-as-clk', VPLACEHOLDER, "    if 'reset' not in all_port_names:", "    if 'clk' not in all_port_names:",
+       'R-C13-once'),
+    _m('special-characters-tested-on-class-name', VUTIL,
+       "  full_name = get_component_full_name( c_rtype )\n  special_chars = [' ', '<', '>', '.', '[', ']']\n\n"
+       "  if len( full_name ) < 64 and not any([c in full_name for c in special_chars]):\n    return full_name\n\n"
+       "  comp_name = c_rtype.get_name()\n",
+       "  full_name = get_component_full_name( c_rtype )\n  comp_name = c_rtype.get_name()\n"
+       "  special_chars = [' ', '<', '>', '.', '[', ']']\n\n"
+       "  if len( full_name ) < 64 and not any([c in comp_name for c in special_chars]):\n    return full_name\n\n", 'R-C13-name'),
     # --- R-C13-state
     _m('translator-state-initialised-once', VTRANSLATOR,
        "      s._mangled_placeholder_top_module_name = ''\n      s._included_pickled_files = set()\n",
@@ -3275,6 +3458,22 @@ EQUIV = [
     _m('verilog-scalar-instance-check-unconditional', VSL4,
        "    if not c_array_type['n_dim']:\n      s.check_decl( c_id, f\"Note: {c_id} is a sub-component of {m}\" )\n",
        "    s.check_decl( c_id, f\"Note: {c_id} is a sub-component of {m}\" )\n", None),
+    _m('config-traversal-renamed', VPASS,
+       "    def traverse( m ):\n      nonlocal tr_cfgs\n      tr_cfgs[m] = s.get_translation_config()( m )\n"
+       "      for _m in m.get_child_components(repr):\n        traverse( _m )",
+       "    def traverse( comp ):\n      nonlocal tr_cfgs\n      mk_cfg = s.get_translation_config()\n      tr_cfgs[comp] = mk_cfg( comp )\n"
+       "      for child in comp.get_child_components(repr):\n        traverse( child )", None),
+    _m('nested-interface-prefix-via-helper-local', VSL4,
+       "        ret += s.rtlir_tr_subcomp_ifc_port_decl( m,",
+       "        nested_prefix = ifc_id + '__' + port_id\n        ret += s.rtlir_tr_subcomp_ifc_port_decl( m,", None),
+    _m('wrapper-reset-test-positive-form', VPLACEHOLDER, "    if 'reset' not in all_port_names:\n      ports.insert( 0, '  input logic reset,' )",
+       "    if 'reset' in all_port_names:\n      pass\n    else:\n      ports.insert( 0, '  input logic reset,' )", None),
+    _m('comp-name-hoisted-in-unique-name', VUTIL,
+       "  special_chars = [' ', '<', '>', '.', '[', ']']\n\n"
+       "  if len( full_name ) < 64 and not any([c in full_name for c in special_chars]):\n    return full_name\n\n"
+       "  comp_name = c_rtype.get_name()\n",
+       "  comp_name = c_rtype.get_name()\n  special_chars = [' ', '<', '>', '.', '[', ']']\n\n"
+       "  if len( full_name ) < 64 and not any([c in full_name for c in special_chars]):\n    return full_name\n\n", None),
     _m('local-renamed-in-unique-name', VUTIL, "  param_name = param_hash.hexdigest()\n  return comp_name + \"__\" + param_name",
        "  digest = param_hash.hexdigest()\n  return comp_name + \"__\" + digest", None),
 ]
